@@ -191,7 +191,46 @@ func formatEventsParseError(path string, lineNo int, line []byte, cause error) e
 	return fmt.Errorf("%s:%d: invalid JSON in events log (run `ergo compact` after fixing): %s (%v)", path, lineNo, snippet, cause)
 }
 
+// hasUnterminatedTail reports whether the file at path is non-empty and does
+// not end in '\n' (e.g. a previous writer died mid-line). A missing file
+// counts as terminated.
+func hasUnterminatedTail(path string) (bool, error) {
+	file, err := os.Open(path)
+	if err != nil {
+		if errors.Is(err, os.ErrNotExist) {
+			return false, nil
+		}
+		return false, err
+	}
+	defer file.Close()
+	info, err := file.Stat()
+	if err != nil {
+		return false, err
+	}
+	if info.Size() == 0 {
+		return false, nil
+	}
+	last := make([]byte, 1)
+	if _, err := file.ReadAt(last, info.Size()-1); err != nil {
+		return false, err
+	}
+	return last[0] != '\n', nil
+}
+
 func appendEvents(path string, events []Event) error {
+	// Never append onto a torn tail: the glued line would be unreadable.
+	// Rewrite the log from what can still be read instead.
+	torn, err := hasUnterminatedTail(path)
+	if err != nil {
+		return err
+	}
+	if torn {
+		existing, err := readEvents(path)
+		if err != nil {
+			return err
+		}
+		return appendEventsAtomically(path, existing, events)
+	}
 	file, err := os.OpenFile(path, os.O_APPEND|os.O_CREATE|os.O_WRONLY, 0644)
 	if err != nil {
 		return err
